@@ -167,21 +167,21 @@ Proof.
     split; [eapply DE_trans; eauto|]. cbn [map List.concat fst snd]. eapply Dstep_trans; eauto.
 Qed.
 
-Lemma custom_call_core s gd args vs bs parts :
+Lemma custom_call_core s gd args vs qs bss parts :
   Regs env s -> gates s = G -> gstack s = stk -> sget name G = Some gd -> smem name stk = false ->
   cvals args = Some vs ->
-  List.length vs = List.length (g_params gd) -> List.length bs = List.length (g_qubits gd) ->
-  forallb (in_reg (e_q env)) bs = true -> distinctb [] bs = true ->
+  List.length vs = List.length (g_params gd) -> List.length (List.concat bss) = List.length (g_qubits gd) ->
+  mapM (opnd_bits (e_q env)) qs = Some bss -> distinctb [] (List.concat bss) = true ->
   mapM (binst (fold_left (fun acc p => sset (fst p) (snd p) acc) (combine (g_params gd) vs) [])
-              (dedup_names_last (combine (g_qubits gd) bs)) name H) (g_body gd) = Some parts ->
-  exists s', visit_stmt check_only [] (S (S f)) (SGate [] name args (map qarg_of bs)) s
+              (dedup_names_last (combine (g_qubits gd) (List.concat bss))) name H) (g_body gd) = Some parts ->
+  exists s', visit_stmt check_only [] (S (S f)) (SGate [] name args qs) s
              = Ok ((if check_only then [] else List.concat (map fst parts)), s') /\ DE s s' /\ Dstep s s' (List.concat (map snd parts)).
 Proof.
-  intros R HG Hstk Hg Hst Hargs Hv Hb Hin Hd Ep.
+  intros R HG Hstk Hg Hst Hargs Hv Hb Hq Hd Ep. set (bs := List.concat bss) in *.
   cbn [visit_stmt visit_stmt_body]. set (vr := visit_stmt check_only [] (S f)). set (cr := visit_call check_only [] (S f)).
   unfold visit_generic_gate. cbn [collapse_mods]. rewrite (bind_eq _ _ s (VInt 1, false) s eq_refl).
   rewrite (bind_eq _ _ s s s eq_refl). rewrite (in_some_function_false env s R), andb_false_r.
-  rewrite (bind_eq _ _ s (map qarg_of bs) s eq_refl). rewrite (bind_eq _ _ s 1 s eq_refl).
+  rewrite (bind_eq _ _ s qs s eq_refl). rewrite (bind_eq _ _ s 1 s eq_refl).
   cbn [Z.ltb Z.compare guard]. rewrite (bind_eq _ _ s tt s eq_refl).
   change (Z.to_nat 1) with 1%nat. cbn [repeatM].
   set (qmap := dedup_names_last (combine (g_qubits gd) bs)) in *.
@@ -191,10 +191,10 @@ Proof.
   destruct (gate_body_fix pmap qmap (g_body gd) (gpush s name) parts (Regs_gpush env s name R)) as (s4 & E4 & D4 & S4).
   { destruct s; exact HG. } { destruct s; cbn in *. now rewrite Hstk. } { exact Ep. }
   set (out := List.concat (map fst parts)) in *.
-  assert (Hc : visit_custom_gate check_only vr cr name args (map qarg_of bs) false s
+  assert (Hc : visit_custom_gate check_only vr cr name args qs false s
                = Ok ((if check_only then [] else out), gpop s4)).
   { unfold visit_custom_gate. rewrite (bind_eq _ _ s s s eq_refl). rewrite Hg'.
-    pose proof (get_op_bits_literals cr env s true bs R Hin Hd) as GB. cbn iota in GB.
+    pose proof (get_op_bits_opnds cr env s true qs bss R Hq Hd) as GB. cbn iota in GB. fold bs in GB.
     rewrite (bind_eq _ _ s bs s GB).
     rewrite <- (cvals_length args vs Hargs), Hv, Nat.eqb_refl. cbn [guard]. rewrite (bind_eq _ _ s tt s eq_refl).
     rewrite Hb, Nat.eqb_refl. cbn [guard]. rewrite (bind_eq _ _ s tt s eq_refl).
@@ -224,8 +224,8 @@ Definition ghandler (rec : list string -> string -> list pyval -> list bitref ->
     match op' with
     | SGate mods gname gargs gqs =>
         match sget gname G with
-        | Some _ => match mods, mapM lit_bit gqs, cvals gargs with
-                    | [], Some bs', Some vs' => rec stk gname vs' bs'
+        | Some _ => match mods, mapM (opnd_bits (e_q env)) gqs, cvals gargs with
+                    | [], Some bss', Some vs' => if distinctb [] (List.concat bss') then rec stk gname vs' (List.concat bss') else None
                     | _, _, _ => None
                     end
         | None => mod_ok env G op'
@@ -242,7 +242,7 @@ Fixpoint gcall (n : nat) (env : renv) (G : genv0) (stk : list string) (name : st
       | None => None
       | Some gd =>
           if negb (smem name stk) && Nat.eqb (List.length vs) (List.length (g_params gd)) &&
-             Nat.eqb (List.length bs) (List.length (g_qubits gd)) && forallb (in_reg (e_q env)) bs && distinctb [] bs
+             Nat.eqb (List.length bs) (List.length (g_qubits gd))
           then
             match mapM (binst (fold_left (fun acc p => sset (fst p) (snd p) acc) (combine (g_params gd) vs) [])
                               (dedup_names_last (combine (g_qubits gd) bs)) name
@@ -254,26 +254,28 @@ Fixpoint gcall (n : nat) (env : renv) (G : genv0) (stk : list string) (name : st
       end
   end.
 
-Lemma gcall_fix check_only env G n : forall f stk s name args vs bs out evs,
+Lemma gcall_fix check_only env G n : forall f stk s name args vs qs bss out evs,
   (n <= S f)%nat -> Regs env s -> gates s = G -> gstack s = stk -> cvals args = Some vs ->
-  gcall n env G stk name vs bs = Some (out, evs) ->
-  exists s', visit_stmt check_only [] (S (S f)) (SGate [] name args (map qarg_of bs)) s
+  mapM (opnd_bits (e_q env)) qs = Some bss -> distinctb [] (List.concat bss) = true ->
+  gcall n env G stk name vs (List.concat bss) = Some (out, evs) ->
+  exists s', visit_stmt check_only [] (S (S f)) (SGate [] name args qs) s
              = Ok ((if check_only then [] else out), s') /\ DE s s' /\ Dstep s s' evs.
 Proof.
-  induction n as [|n IH]; intros f stk s name args vs bs out evs Hn R HG Hstk Hargs Hc; [discriminate Hc|].
+  induction n as [|n IH]; intros f stk s name args vs qs bss out evs Hn R HG Hstk Hargs Hq Hd Hc; [discriminate Hc|].
   cbn [gcall] in Hc. destruct (sget name G) as [gd|] eqn:Eg; [|discriminate Hc].
   match type of Hc with (if ?c then _ else _) = _ => destruct c eqn:C; [|discriminate Hc] end.
   match type of Hc with match ?m with _ => _ end = _ => destruct m as [parts|] eqn:Ep; [|discriminate Hc] end. injection Hc as <- <-.
-  apply andb_true_iff in C as [C Hd]. apply andb_true_iff in C as [C Hin]. apply andb_true_iff in C as [C Hb].
+  apply andb_true_iff in C as [C Hb].
   apply andb_true_iff in C as [Hst Hv]. apply negb_true_iff in Hst. apply Nat.eqb_eq in Hv, Hb.
   eapply (custom_call_core check_only f env G name stk (ghandler (gcall n env G) env G (name :: stk))); eauto.
   (* the handler *)
   intros op' o e s0 Ho R0 G0 S0. unfold ghandler in Ho. destruct op'; try discriminate Ho.
   destruct (sget name0 G) as [gd0|] eqn:Eg0.
-  - destruct mods; [|discriminate Ho]. destruct (mapM lit_bit qubits) as [bs'|] eqn:Eb'; [|discriminate Ho].
-    destruct (cvals args0) as [vs'|] eqn:Ev'; [|discriminate Ho]. apply mapM_lit_bit in Eb' as ->.
+  - destruct mods; [|discriminate Ho]. destruct (mapM (opnd_bits (e_q env)) qubits) as [bss'|] eqn:Eb'; [|discriminate Ho].
+    destruct (cvals args0) as [vs'|] eqn:Ev'; [|discriminate Ho].
+    destruct (distinctb [] (List.concat bss')) eqn:Ed'; [|discriminate Ho].
     destruct f as [|f']; [assert (n = O) by lia; subst n; discriminate Ho|].
-    eapply (IH f' (name :: stk) s0 name0 args0 vs' bs' o e); eauto. lia.
+    eapply (IH f' (name :: stk) s0 name0 args0 vs' qubits bss' o e); eauto. lia.
   - eapply mod_fix; eauto.
 Qed.
 
@@ -292,8 +294,8 @@ Proof.
     unfold binst in Eb. match type of Eb with match ?i with _ => _ end = _ => destruct i as [op'|]; [|discriminate Eb] end.
     destruct (negb _); [|discriminate Eb]. unfold ghandler in Eb. destruct op'; try discriminate Eb.
     destruct (sget name0 G).
-    + destruct mods; [|discriminate Eb]. destruct (mapM lit_bit qubits); [|discriminate Eb]. destruct (cvals args); [|discriminate Eb].
-      eapply IH; eauto.
+    + destruct mods; [|discriminate Eb]. destruct (mapM (opnd_bits (e_q env)) qubits); [|discriminate Eb]. destruct (cvals args); [|discriminate Eb].
+      destruct (distinctb [] _); [|discriminate Eb]. eapply IH; eauto.
     + eapply mod_ok_ops; eauto.
 Qed.
 
@@ -429,8 +431,8 @@ Definition gate_nesting : nat := 24.
 Definition gcall_ok (env : renv) (G : genv) (stm : stmt) : option (list stmt * list (list rsrc)) :=
   match stm with
   | SGate [] name args qs =>
-      match sget name G, mapM lit_bit qs, cvals args with
-      | Some _, Some bs, Some vs => gcall gate_nesting env G [] name vs bs
+      match sget name G, mapM (opnd_bits (e_q env)) qs, cvals args with
+      | Some _, Some bss, Some vs => if distinctb [] (List.concat bss) then gcall gate_nesting env G [] name vs (List.concat bss) else None
       | _, _, _ => None
       end
   | _ => None
@@ -519,12 +521,12 @@ Proof.
       { intros Eo. destruct (gcall_ok env G stm) as [[out' evs']|] eqn:Ec.
         - injection Eo as <- <- <- <-. destruct stm; try discriminate Ec. cbn [gcall_ok] in Ec.
           destruct mods; [|discriminate Ec]. destruct (sget name G) as [gd|] eqn:Eg; [|discriminate Ec].
-          destruct (mapM lit_bit qubits) as [bs|] eqn:Eb; [|discriminate Ec]. destruct (cvals args) as [vs|] eqn:Ev; [|discriminate Ec].
-          apply mapM_lit_bit in Eb as ->.
+          destruct (mapM (opnd_bits (e_q env)) qubits) as [bss|] eqn:Eb; [|discriminate Ec]. destruct (cvals args) as [vs|] eqn:Ev; [|discriminate Ec].
+          destruct (distinctb [] (List.concat bss)) eqn:Edd; [|discriminate Ec].
           destruct fuel as [|[|f]]; try (cbn in Hf; lia).
           assert (HNf : (gate_nesting <= S f)%nat) by lia.
-          destruct (gcall_fix false env G gate_nesting f [] s name args vs bs out' evs' HNf (T_regs _ _ T) HG Hst Ev Ec) as (s1 & E1 & D1 & S1).
-          pose proof (gcall_ops env G gate_nesting [] name vs bs out' evs' Ec) as Ops. destruct (total_ops env out' Ops) as [Tq Tc].
+          destruct (gcall_fix false env G gate_nesting f [] s name args vs qubits bss out' evs' HNf (T_regs _ _ T) HG Hst Ev Eb Edd Ec) as (s1 & E1 & D1 & S1).
+          pose proof (gcall_ops env G gate_nesting [] name vs (List.concat bss) out' evs' Ec) as Ops. destruct (total_ops env out' Ops) as [Tq Tc].
           destruct (DE_counts _ _ D1) as [Nq Nc]. destruct (gframe_DE _ _ D1) as [Fg Fs].
           exists s1. split; [exact E1|]. split; [eapply Top_DE; eauto|]. split; [lia|]. split; [lia|]. split; [exact S1|].
           split; [intros r0; now apply wf_flat_ops|]. split; congruence.
@@ -660,11 +662,11 @@ Proof.
       { intros Eo. destruct (gcall_ok env G stm) as [[out' evs']|] eqn:Ec.
         - injection Eo as <- <- <- <-. destruct stm; try discriminate Ec. cbn [gcall_ok] in Ec.
           destruct mods; [|discriminate Ec]. destruct (sget name G) as [gd|] eqn:Eg; [|discriminate Ec].
-          destruct (mapM lit_bit qubits) as [bs|] eqn:Eb; [|discriminate Ec]. destruct (cvals args) as [vs|] eqn:Ev; [|discriminate Ec].
-          apply mapM_lit_bit in Eb as ->.
+          destruct (mapM (opnd_bits (e_q env)) qubits) as [bss|] eqn:Eb; [|discriminate Ec]. destruct (cvals args) as [vs|] eqn:Ev; [|discriminate Ec].
+          destruct (distinctb [] (List.concat bss)) eqn:Edd; [|discriminate Ec].
           destruct fuel as [|[|f]]; try (cbn in Hf; lia).
           assert (HNf : (gate_nesting <= S f)%nat) by lia.
-          destruct (gcall_fix true env G gate_nesting f [] s name args vs bs out' evs' HNf (T_regs _ _ T) HG Hst Ev Ec) as (s1 & E1 & D1 & S1).
+          destruct (gcall_fix true env G gate_nesting f [] s name args vs qubits bss out' evs' HNf (T_regs _ _ T) HG Hst Ev Eb Edd Ec) as (s1 & E1 & D1 & S1).
           exists s1. split; [exact E1|]. apply HDE; auto. eapply gcall_ops; eauto.
         - destruct (mod_ok env G stm) as [[mo me]|] eqn:Emo.
           { injection Eo as <- <- <- <-. destruct fuel as [|f]; [lia|].
